@@ -93,7 +93,7 @@ def gen_cases(tier, seed):
                     yield {'k': k, 'hashes': list(range(k)), 'owner': owner,
                            'nested_first': True,
                            'drops': [{'when': i, 'victim': 1, 'how': how}]}
-    n = 300 if tier == 'quick' else 16 * 10000
+    n = 1000 if tier == 'quick' else 16 * 10000
     for i in range(n):
         rng = random.Random(f'C10/{seed}/{tier}/{i}')
         k = rng.randint(2, 5)
